@@ -15,8 +15,11 @@ pub enum FaultKind {
     BadVal,
 }
 
-/// dynamic tick invocation ordinal (1-based) -> fault
+/// dynamic tick invocation ordinal (1-based) -> fault. Keys from `IO_BASE` upwards denote the
+/// n-th stream write (`IO_BASE + n`): that write operation fails (the stream seam).
 pub type FaultPlan = BTreeMap<u32, FaultKind>;
+pub const IO_BASE: u32 = 1_000_000;
+pub const ERR_IO: &str = "simulated stream failure";
 
 #[derive(Clone, Debug, PartialEq)]
 pub enum Thrown {
@@ -81,6 +84,8 @@ pub struct Prediction {
     /// Ok(rendered value) / Err(message class)
     pub result: Result<String, String>,
     pub ticks: u32,
+    /// stream write operations performed (or attempted)
+    pub io_ops: u32,
     /// ids of the tick sites in invocation order
     pub tick_ids: Vec<u32>,
     /// number of faults of the plan that fired
@@ -124,6 +129,7 @@ impl Default for Prediction {
             stdout: String::new(),
             result: Ok(String::new()),
             ticks: 0,
+            io_ops: 0,
             tick_ids: vec![],
             fired: 0,
             error_occurred: false,
@@ -589,6 +595,16 @@ impl<'a> Model<'a> {
             }
             Stmt::Print(e) => {
                 let x = self.eval(e, f)?;
+                self.out.io_ops += 1;
+                if self.plan.contains_key(&(IO_BASE + self.out.io_ops)) {
+                    // the write fails before anything reaches the sink
+                    self.out.fired += 1;
+                    let mut a = self.throw(Thrown::Runtime(ERR_IO.into()), 0, "IoFail");
+                    if let Abrupt::Throw(t) = &mut a {
+                        t.crossed_opaque = true;
+                    }
+                    return Err(a);
+                }
                 self.out.stdout.push_str(&format!("{x}\n"));
             }
             Stmt::If(c, t, e) => {
